@@ -27,6 +27,12 @@ def demo_cmd(demo):
             cmds.append("cargo test --offline -p resolvo_cpp --test %s" % os.path.basename(f)[:-3])
         elif f.startswith("cpp/src/seed_demo"):
             cmds.append("cargo test --offline -p resolvo_cpp seed_demo")
+        elif f.startswith("cpp/tests/") and f.endswith(".cpp"):
+            # a C++ demonstration: built with ASan against the static library of the binding crate
+            exe = "$CARGO_TARGET_DIR/" + os.path.basename(f)[:-4]
+            cmds.append("cargo build -p resolvo_cpp --offline && clang++ -std=c++17 -g -fsanitize=address -Icpp/include "
+                        "-I\"$(ls -d $CARGO_TARGET_DIR/debug/build/resolvo_cpp-*/out/generated_include | head -1)\" "
+                        "%s $CARGO_TARGET_DIR/debug/libresolvo_cpp.a -lpthread -ldl -lm -o %s && %s && echo 'test result: ok. 1 passed; 0 failed'" % (f, exe, exe))
         elif f.startswith("cpp/"):
             continue
         elif f == "tests/solver.rs":
